@@ -13,8 +13,14 @@ use std::panic::catch_unwind;
 static CALLS: std::sync::atomic::AtomicUsize = std::sync::atomic::AtomicUsize::new(0);
 
 fn shown(frame: &[u8]) -> (String, i64, i64) {
+    shown_ctx(frame, true)
+}
+
+/// `vary` = false: no intermediate call, so that the frame is decoded immediately after the one
+/// decoded before it (the back-to-back families below)
+fn shown_ctx(frame: &[u8], vary: bool) -> (String, i64, i64) {
     let k = CALLS.fetch_add(1, std::sync::atomic::Ordering::Relaxed);
-    if k % 3 == 2 && frame.len() > 1 {
+    if vary && k % 3 == 2 && frame.len() > 1 {
         let cut = 1 + (k / 3) % (frame.len() - 1);
         let t = frame[..cut].to_vec();
         let _ = catch_unwind(move || Message::try_from(t.as_slice()).is_ok());
@@ -113,6 +119,70 @@ fn main() {
                 }
             }
             emit_corrupt(&mut tr, f, "burst");
+        }
+    }
+    // back-to-back histories (the verdict of a frame must not depend on the call before it): a
+    // valid frame IMMEDIATELY followed by a copy damaged only inside the 24 parity bits (same
+    // message bytes, other trailer), for every single parity bit, adjacent pairs and bursts inside
+    // the parity field; the same for the bare checksum
+    for b in 0..n_base.max(2) {
+        let tc = tcs[(b + 7 + seed as usize) % tcs.len()];
+        let payload = pack(&[(5, 17), (3, rng.below(8)), (24, rng.below(1 << 24)), (5, tc), (51, rng.next() & ((1u64 << 51) - 1))]);
+        let base = seal(&payload, 0);
+        let flip = |f: &mut Vec<u8>, bit: usize| f[bit / 8] ^= 0x80 >> (bit % 8);
+        let mut variants: Vec<Vec<u8>> = Vec::new();
+        for i in 88..112 {
+            let mut f = base.clone();
+            flip(&mut f, i);
+            variants.push(f);
+        }
+        for i in 88..111 {
+            let mut f = base.clone();
+            flip(&mut f, i);
+            flip(&mut f, i + 1 + (rng.below((111 - i) as u64) as usize));
+            variants.push(f);
+        }
+        for _ in 0..8 {
+            let mut f = base.clone();
+            let mask = 1 + rng.below((1 << 24) - 1);
+            for k in 0..24 {
+                if (mask >> k) & 1 == 1 {
+                    flip(&mut f, 88 + k);
+                }
+            }
+            variants.push(f);
+        }
+        for f in variants {
+            let (out, df, ic) = shown_ctx(&base, false);
+            tr.emit(json!({"e": "df17", "kind": "valid", "cls": "b2b", "f": bytes_json(&base), "out": out, "df": df, "icao": ic}));
+            let (out, df, ic) = shown_ctx(&f, false);
+            tr.emit(json!({"e": "df17", "kind": "corrupt", "cls": "b2b", "f": bytes_json(&f), "out": out, "df": df, "icao": ic}));
+            for g in [base.clone(), f.clone()] {
+                let h = g.clone();
+                let (out, v) = match catch_unwind(move || modes_checksum(&h, 112)) {
+                    Ok(Ok(v)) => ("ok", v as i64),
+                    Ok(Err(_)) => ("err", -1),
+                    Err(_) => ("panic", -1),
+                };
+                tr.emit(json!({"e": "checksum", "cls": "b2b", "f": bytes_json(&g), "out": out, "v": v}));
+            }
+        }
+    }
+    // address/parity twins: the same message bytes sent by two aircraft, decoded back to back
+    for i in 0..(n_ap / 8).max(24) {
+        let df = [0u64, 4, 5, 16, 20, 21][i % 6];
+        let fill = rng.next();
+        let payload = if df < 16 {
+            pack(&[(5, df), (27, fill & ((1 << 27) - 1))])
+        } else {
+            pack(&[(5, df), (27, fill & ((1 << 27) - 1)), (56, rng.next() & ((1 << 56) - 1))])
+        };
+        let a1 = rng.below(1 << 24);
+        let a2 = if i % 3 == 0 { a1 ^ 1 } else { rng.below(1 << 24) };
+        for addr in [a1, a2, a1] {
+            let frame = seal(&payload, addr as u32);
+            let (out, sdf, ic) = shown_ctx(&frame, false);
+            tr.emit(json!({"e": "ap", "cls": "twin", "f": bytes_json(&frame), "addr": addr, "out": out, "df": sdf, "icao": ic}));
         }
     }
     // address/parity formats: transmitted address must be recovered
